@@ -1,5 +1,8 @@
 import Spine.Heartbeat
 import Spine.Period
+import Spine.HBMulti
+import Spine.HBPace
+import Spine.HBStamp
 open Spine.HB
 /-! Line protocol for the heartbeat start/stop model (C16). One op per line, one answer per line.
     Both members live in one model: the code as written is driven with the split events
@@ -10,7 +13,14 @@ open Spine.HB
           reset | stopCheck <op> | stopClose <op> | startMake <op> | startSpawn <op> | stopAtomic | startAtomic | obs
     After every op the streams whose channel has been closed exit (the real goroutines notice the closed channel
     at once; the harness waits for that).
-    answer: `run=<0|1> streams=<n> live=<n> panic=<0|1> checked=<op,..|->`  -/
+    answer: `run=<0|1> streams=<n> live=<n> panic=<0|1> checked=<op,..|->`
+
+    second model (all streams of a manager with tickers, refreshes in flight, shared counter: Spine.HBM), own state:
+          m reset | m start | m stop | m tick <k> | m take <k> | m store <k> | m exit <k> | m obs
+    answer: `run=<0|1> goroutines=<n> stored=<n> since=<stored - mark> last=<counter|0> prompt=<0|1>` (prompt = every
+    tick so far came when nothing was pending)
+          gap <ticker|perIteration> <timeout ms> <refresh ms> <k>  -> begin of refresh k+1 minus begin of refresh k (Spine.HBP)
+          stamp <now ms> <zone s>  -> the instant the timestamp text of a refresh made at `now` denotes (Spine.HBS, UTC reading) -/
 
 /-- a stopped stream has exited by the time the next observation is made -/
 def settle (s : St) : St := s.closed.foldl (fun s c => step s (.exit c)) s
@@ -34,23 +44,64 @@ def evOf (ws : List String) : Option (List Ev) :=
   | ["obs"] => some []
   | _ => none
 
-partial def loop (h out : IO.FS.Stream) (s : St) : IO Unit := do
+def showM (m : Spine.HBM.St) (ok : Bool) : String :=
+  let g := ((List.range m.next).filter fun j => !(m.strm j).exited).length
+  s!"run={b m.cur.isSome} goroutines={g} stored={m.stored.length} since={m.stored.length - m.mark} last={m.stored.getLast?.getD 0} prompt={b ok}"
+
+def mEvOf (ws : List String) : Option (List Spine.HBM.Ev) :=
+  match ws with
+  | ["start"] => some [.start]
+  | ["stop"] => some [.stop]
+  | ["tick", x] => x.toNat?.map fun k => [.tick k]
+  | ["take", x] => x.toNat?.map fun k => [.take k]
+  | ["store", x] => x.toNat?.map fun k => [.store k]
+  | ["exit", x] => x.toNat?.map fun k => [.exit k]
+  | ["obs"] => some []
+  | _ => none
+
+def mStep (mo : Spine.HBM.St × Bool) (e : Spine.HBM.Ev) : Spine.HBM.St × Bool :=
+  let ok := match e with
+    | .tick _ => mo.2 && Spine.HBM.quiet mo.1
+    | _ => mo.2
+  (Spine.HBM.step mo.1 e, ok)
+
+partial def loop (h out : IO.FS.Stream) (s : St) (mo : Spine.HBM.St × Bool := ({}, true)) : IO Unit := do
   let line ← h.getLine
   if line.isEmpty then out.flush; return ()
   let ws := (line.trimAscii.toString.splitOn " ").filter (· ≠ "")
   match ws with
-  | ["reset"] => out.putStrLn "ok"; out.flush; loop h out {}
+  | ["reset"] => out.putStrLn "ok"; out.flush; loop h out {} mo
   | ["period", t] =>
     match t.toNat? with
-    | some t => out.putStrLn (toString (period t)); out.flush; loop h out s
-    | none => out.putStrLn "bad-op"; out.flush; loop h out s
+    | some t => out.putStrLn (toString (period t)); out.flush; loop h out s mo
+    | none => out.putStrLn "bad-op"; out.flush; loop h out s mo
+  | ["m", "reset"] => out.putStrLn "ok"; out.flush; loop h out s ({}, true)
+  | "m" :: rest =>
+    match mEvOf rest with
+    | some evs =>
+      let mo' := evs.foldl mStep mo
+      out.putStrLn (showM mo'.1 mo'.2); out.flush; loop h out s mo'
+    | none => out.putStrLn "bad-op"; out.flush; loop h out s mo
+  | ["gap", pc, t, r, k] =>
+    let p : Option Spine.HBP.Pace := match pc with
+      | "ticker" => some .ticker | "perIteration" => some .perIteration | _ => none
+    match p, t.toNat?, r.toNat?, k.toNat? with
+    | some p, some t, some r, some k =>
+      let d := period t
+      out.putStrLn (toString (Spine.HBP.begins p d (fun _ => r) (k + 1) - Spine.HBP.begins p d (fun _ => r) k))
+      out.flush; loop h out s mo
+    | _, _, _, _ => out.putStrLn "bad-op"; out.flush; loop h out s mo
+  | ["stamp", now, zone] =>
+    match now.toInt?, zone.toInt? with
+    | some now, some zone => out.putStrLn (toString (Spine.HBS.denoted {} now zone)); out.flush; loop h out s mo
+    | _, _ => out.putStrLn "bad-op"; out.flush; loop h out s mo
   | _ =>
     match evOf ws with
     | some evs =>
       let s' := settle (evs.foldl step s)
       out.putStrLn (showSt s')
       out.flush
-      loop h out s'
-    | none => out.putStrLn "bad-op"; out.flush; loop h out s
+      loop h out s' mo
+    | none => out.putStrLn "bad-op"; out.flush; loop h out s mo
 
 def main : IO Unit := do loop (← IO.getStdin) (← IO.getStdout) {}
